@@ -396,9 +396,9 @@ fn base_document2(ctx: &mut Ctx, fl: Flavour, hs: u64) -> (Vec<u8>, &'static str
             let (_a, input, _s) = gen_dataset(&mut ctx.tape, &profile);
             let w = SimWriter::perfect();
             let res = if fmt.hash_sensitive() {
-                on_fresh_thread(hs, || fmt.serialize(&input, w.handle()))
+                on_fresh_thread(hs, || fmt.serialize(&input, w.handle(), 0))
             } else {
-                fmt.serialize(&input, w.handle())
+                fmt.serialize(&input, w.handle(), 0)
             };
             match res {
                 SerResult::Ok => (w.accepted(), "serialized", 0),
